@@ -17,7 +17,9 @@ import (
 	"encoding/json"
 	"fmt"
 	"io"
+	"math/rand"
 	"net/http"
+	"net/url"
 	"strconv"
 	"strings"
 	"sync"
@@ -192,6 +194,11 @@ type c15Case struct {
 	Cfg    logCfg `json:"cfg"`
 	Resp   bool   `json:"response"`
 	Skip   bool   `json:"skip_logging"`
+	// Rewrite: what happens to a request between parsing and logging, as in a
+	// proxy whose earlier modifiers rewrote the URL: "" | origin-form (target
+	// arrives in origin-form, scheme/host filled in from Host) | path-query |
+	// host-scheme | all
+	Rewrite string `json:"rewrite,omitempty"`
 }
 
 func caseOf(driver, stream string, idx int) c15Case {
@@ -199,6 +206,9 @@ func caseOf(driver, stream string, idx int) c15Case {
 	c.Cfg = cfgs[idx%len(cfgs)]
 	c.Resp = (idx/len(cfgs))%2 == 1
 	c.Skip = (idx/(2*len(cfgs)))%6 == 5
+	if !c.Resp {
+		c.Rewrite = [...]string{"", "", "", "", "origin-form", "path-query", "host-scheme", "all"}[(idx/(2*len(cfgs)))%8]
+	}
 	return c
 }
 
@@ -301,9 +311,13 @@ func (t *twin) one(r *vh.Run, c c15Case) {
 	} else {
 		s = reqSpec
 	}
+	wantTarget := "" // request target the snapshot must show ("" = the one on the wire)
+	if !c.Resp {
+		wantTarget = planRewrite(rng, c.Rewrite, s)
+	}
 	wire := s.Wire()
 	r.Eval(1)
-	witness := map[string]interface{}{"message": msgx.Excerpt(wire, 700), "wire_len": len(wire), "logger": c.Cfg, "skip_logging": c.Skip,
+	witness := map[string]interface{}{"message": msgx.Excerpt(wire, 700), "wire_len": len(wire), "logger": c.Cfg, "skip_logging": c.Skip, "rewrite": c.Rewrite, "url_when_logged": wantTarget,
 		"kind": s.Kind(), "framing": s.FramingClass(), "coding": s.CodingClass(), "body_len": len(s.WireBody())}
 	viol := func(sig, what string) { r.ViolationCase(c, sig, what, witness) }
 	inconc := func(why string) {
@@ -322,6 +336,21 @@ func (t *twin) one(r *vh.Run, c c15Case) {
 		}
 		reqB, _ = http.ReadRequest(bufio.NewReader(bytes.NewReader(wire)))
 		reqA.RemoteAddr, reqB.RemoteAddr = "192.0.2.7:5555", "192.0.2.7:5555"
+		if wantTarget != "" {
+			// an earlier modifier (or the proxy's own scheme/host fill-in) changed the URL of both twins
+			for _, q := range []*http.Request{reqA, reqB} {
+				u, err := url.Parse(wantTarget)
+				if err != nil {
+					inconc("url.Parse of the rewritten URL: " + err.Error())
+					return
+				}
+				*q.URL = *u
+			}
+			if reqA.URL.String() != wantTarget {
+				inconc(fmt.Sprintf("harness: rewritten URL renders as %q, planned %q", reqA.URL.String(), wantTarget))
+				return
+			}
+		}
 	} else {
 		reqA, reqB = stubRequest(s.Method, reqSpec.Target), stubRequest(s.Method, reqSpec.Target)
 		if resA, err = http.ReadResponse(bufio.NewReader(bytes.NewReader(wire)), reqA); err != nil {
@@ -489,7 +518,10 @@ func (t *twin) one(r *vh.Run, c c15Case) {
 
 	// --- the snapshot itself
 	if mv != nil && logErr == nil && captured {
-		t.checkSnapshot(r, c, s, mv, witness)
+		checkSnapshot(r, c, s, mv, wantTarget, witness)
+	}
+	if c.Rewrite != "" {
+		r.Class("rewrite|" + c.Rewrite + "|" + c.Cfg.Logger + "/" + c.Cfg.Opt)
 	}
 	r.Class(classOf(c, s))
 	if c.Idx%1499 == 7 {
@@ -497,7 +529,30 @@ func (t *twin) one(r *vh.Run, c c15Case) {
 	}
 }
 
-func (t *twin) checkSnapshot(r *vh.Run, c c15Case, s *msgx.Spec, mv *messageview.MessageView, witness map[string]interface{}) {
+// planRewrite changes the spec for the rewrite kind and returns the URL the
+// request has when it is logged ("" = unchanged, i.e. the target on the wire).
+func planRewrite(rng *rand.Rand, kind string, s *msgx.Spec) string {
+	q := ""
+	if s.HasQuery {
+		q = "?" + s.RawQuery
+	}
+	switch kind {
+	case "origin-form":
+		// the client talks to the proxy as to an origin (MITM, transparent mode):
+		// origin-form target, the proxy fills in scheme and host
+		s.Target = s.Path + q
+		return []string{"http", "https"}[rng.Intn(2)] + "://" + s.Host + s.Path + q
+	case "path-query":
+		return s.Scheme + "://" + s.Host + s.Path + "/rewritten/p%20q" + []string{"", "?rw=1&x=a+b", q}[rng.Intn(3)]
+	case "host-scheme":
+		return []string{"http", "https"}[rng.Intn(2)] + "://" + []string{"rewritten.example", "rewritten.example:8443", "localhost:8181"}[rng.Intn(3)] + s.Path + q
+	case "all":
+		return "https://api.internal:9443/k/" + msgx.KeyOf(s.Path) + "/v2/elsewhere?moved=yes"
+	}
+	return ""
+}
+
+func checkSnapshot(r *vh.Run, c interface{}, s *msgx.Spec, mv *messageview.MessageView, wantTarget string, witness map[string]interface{}) {
 	viol := func(sig, what string) { r.ViolationCase(c, sig, what, witness) }
 	rd, err := mv.Reader()
 	if err != nil {
@@ -544,8 +599,18 @@ func (t *twin) checkSnapshot(r *vh.Run, c c15Case, s *msgx.Spec, mv *messageview
 		if p.Proto != s.Proto || p.Status != s.Status || p.Reason != s.Reason {
 			ds = append(ds, fmt.Sprintf("status line %q, original %q", p.StartLine, s.StartLine()))
 		}
-	} else if p.Method != s.Method || p.Target != s.Target || p.Proto != s.Proto {
-		ds = append(ds, fmt.Sprintf("request line %q, original %q", p.StartLine, s.StartLine()))
+	} else {
+		// the original is the message as it is when it is snapshotted: its URL may
+		// have been rewritten since it was read from the connection
+		target := s.Target
+		if wantTarget != "" {
+			target = wantTarget
+		}
+		if p.Method != s.Method || p.Proto != s.Proto {
+			ds = append(ds, fmt.Sprintf("request line %q, original %q", p.StartLine, s.Method+" "+target+" "+s.Proto))
+		} else if p.Target != target {
+			viol("C15:snapshot-equal:request-target", fmt.Sprintf("snapshot request line names %q, the request's URL when snapshotted is %q (target on the wire was %q)", p.Target, target, s.Target))
+		}
 	}
 	skip := map[string]bool{"content-length": true, "transfer-encoding": true, "trailer": true}
 	if d := msgx.DiffByName(msgx.ByName(p.Headers, skip), msgx.ByName(s.Headers, skip)); d != "" {
